@@ -587,6 +587,63 @@ def array_sampler_probe(ctx, name):
         np.random.set_state(st)
 
 
+# ------------------------------------------------------------------------------------------------- coupled paths, maximum step
+def coupled_maxstep_probe(ctx, d):
+    """S: paths of the maximum-step coupling simulator (extra time points are inserted wherever two jumps are more than epsilon
+    apart): between coupled jumps the coarse component must stay where it is, its jumps must be moves of the level-(l-1) chain
+    (0 or an even-index state of the refined grid) and each differs from the fine jump by at most one fine gap"""
+    cls = dict(stream="maxstep_paths", family=d["family"], dimension=1, method=d["method"])
+    model = zoo.make_levy(d["family"], d["params"])
+    g, _ = zoo.make_grid("fixed", model, d["h"], nb_of_points=d["nb"])
+    prod = the_product()
+    cp = CouplingMarkovChain(model, {**ARRAY_SAMPLERS, **METHODS_1D}[d["method"]], g)
+    prod.update(cp.fine_process.process_representation)
+    cp.initialisation(prod, max_step_epsilon=d["eps"])
+    cp.pre_computation(d["paths"], prod)
+    st = np.random.get_state()
+    import random as pyrandom
+    pst = pyrandom.getstate()
+    np.random.seed(d["np_seed"])
+    pyrandom.seed(d["np_seed"])
+    try:
+        for level in range(1, d["L"] + 1):
+            cp.next_level(d["paths"], None, prod, max_step_epsilon=d["eps"])
+            ax = [float(x) for x in cp.grid.axes[0]]
+            o = int(cp.grid.origin_coordinate.value)
+            fine_states = {round(x, 12) for x in ax}
+            coarse_states = {round(x, 12) for x in ax[o % 2::2]} | {0.0}
+            gap = max(b - a for a, b in zip(ax, ax[1:]))
+            for k in range(d["paths"]):
+                path = cp.simulate_one_path_with_coupling()
+                jp = np.asarray(path.jump_path, dtype=float)
+                t = np.asarray(path.jump_times, dtype=float)
+                ctx.count("c03.1d.maxstep_path", dict(d, level=level, path=k), nontrivial=jp.shape[-1] > 2, branch=d["method"])
+                if jp.ndim != 2 or jp.shape[0] != 2 or jp.shape[1] != t.shape[0]:
+                    ctx.fail("oracle", "c03.1d.maxstep_path", dict(d, level=level, path=k), {"what": "shape", "jump_path": list(jp.shape), "times": list(t.shape)}, cls=cls)
+                    return
+                df_, dc_ = np.diff(jp[0]), np.diff(jp[1])
+                bad = None
+                for i, (a, b) in enumerate(zip(df_, dc_)):
+                    if a == 0.0 and b != 0.0:
+                        bad = dict(what="the coarse component moves where the fine component does not jump", index=i + 1)
+                    elif round(float(b), 12) not in coarse_states:
+                        bad = dict(what="a coarse increment is not a state of the level-(l-1) grid", index=i + 1)
+                    elif round(float(a), 12) not in fine_states and a != 0.0:
+                        bad = dict(what="a fine increment is not a state of the level-l grid", index=i + 1)
+                    elif abs(a - b) > gap + 1e-12:
+                        bad = dict(what="coarse jump not adjacent to the fine jump", index=i + 1)
+                    if bad:
+                        lo = max(0, i - 2)
+                        bad.update(times=t[lo:i + 3].tolist(), fine=jp[0][lo:i + 3].tolist(), coarse=jp[1][lo:i + 3].tolist(), fine_increment=float(a),
+                                   coarse_increment=float(b))
+                        ctx.fail("oracle", "c03.1d.maxstep_path", dict(d, level=level, path=k), bad, cls=cls)
+                        return
+    finally:
+        np.random.set_state(st)
+        pyrandom.setstate(pst)
+
+
+
 # ------------------------------------------------------------------------------------------------- every sampling method, >= 3 levels
 class VectorCapture:
     """records the probability vector `create_sampling_method` hands to the array samplers (ALIAS, TABLE, BINARYSEARCHTREE,
@@ -1242,6 +1299,13 @@ def _copula_probe(ctx, d, cls, corr):
         except ValueError as e:                      # a threshold outside the truncation (C13's subject)
             ctx.branches[f"c03.ctor_raises:credit2d:{type(e).__name__}"] += 1
             return
+        o_ = int(list(g.origin_coordinate)[0])
+        if not all(axis_ok([float(x) for x in ax], o_) for ax in g.axes):
+            # the constructor produced an axis that is not strictly increasing (symmetric variant whose mirrored threshold block
+            # does not fit below the right truncation bound: C13's recorded finding C13-symmetric-credit-mirror-beyond-r);
+            # the coupling statement is about well-formed grids
+            ctx.branches["c03.skipped_not_wellformed:credit_nd"] += 1
+            return
     elif d["stream"] == "axes":
         g = zoo.CTMCGrid(h=d["h"], origin_coordinate=d["o"], axes=[np.array(a, dtype=float) for a in d["axes"]])
     else:
@@ -1480,6 +1544,13 @@ def run(ctx, corr=True):
     if corr:
         for name in list(ARRAY_SAMPLERS) + list(METHODS_1D):
             array_sampler_probe(ctx, name)
+    # coupled paths of the maximum-step simulator (S only)
+    for i in range(ctx.n(4, 24)):
+        fam = ["hem", "cgmy", "merton", "vg"][i % 4]
+        d = dict(stream="maxstep_paths", family=fam, params=({} if i < 4 else zoo.draw_params(rng, fam)), h=rng.choice([0.2, 0.1]), nb=rng.choice([5, 9]),
+                 eps=rng.choice([0.02, 0.05, 0.2]), L=rng.choice([1, 2]), paths=ctx.n(6, 20), np_seed=rng.randrange(2 ** 31),
+                 method=rng.choice(["INVERSION", "INVERSION", "BINARYSEARCHTREEADAPTED1D"] + list(ARRAY_SAMPLERS)))
+        guarded(ctx, d, dict(stream="maxstep_paths", dimension=1), coupled_maxstep_probe, ctx, d)
     # SDE coupling: one CGMY driver with y >= 1 (infinite variation: the diffusion coefficient and the drift change with the level)
     # through 3 levels in every run, then random drivers with 1..3 levels
     d = dict(stream="sde", family="cgmy", params=zoo.draw_params(rng, "cgmy", y_branch=rng.choice([1.0, 1.5])), h=0.2, nb=5, L=3,
@@ -1518,6 +1589,8 @@ def replay(ctx, rec):
         array_sampler_probe(ctx, d["method"])
     elif s == "sde":
         sde_probe(ctx, d)
+    elif s == "maxstep_paths":
+        coupled_maxstep_probe(ctx, {k: v for k, v in d.items() if k not in ("level", "path")})
     elif s == "methods":
         methods_probe(ctx, d)
     elif s in ("copula", "cex", "axes", "credit"):
